@@ -14,6 +14,8 @@ import subprocess
 import sys
 import time
 import tracemalloc
+import warnings
+import zlib
 
 from .. import core, drive
 from ..gen import descriptions as G
@@ -87,10 +89,19 @@ def parse_one(rec, data, kind, seed_id, sample_mem=False):
     outcome = "model"
     viol = None
     try:
+        werr = zlib.crc32(data) % 5 == 0
+        if werr:
+            # a fifth of the inputs are parsed with warnings turned into errors (host application / CI run with
+            # -W error): a deprecated call on an error path must not turn an input error into an internal one
+            _state["werr"] = _state.get("werr", 0) + 1
+            warnings.simplefilter("error")
         st.start(budget)
         try:
             SuitEnvelopeTagged.from_cbor(data).to_obj()
         finally:
+            if werr:
+                warnings.resetwarnings()
+                warnings.simplefilter("ignore")
             st.budget = None      # plain assignment: disarm without producing a monitored call
             n = st.count
     except steps.StepBudgetExceeded as e:
@@ -257,6 +268,7 @@ def run_shard(rec, shard, nshards):
     rec.extra["max_local_steps_per_byte"] = round(_state.get("max_ratio", 0), 2)
     rec.extra["max_case_ms"] = round(_state.get("max_ms", 0), 1)
     rec.extra["max_tracemalloc_peak"] = _state.get("max_peak", 0)
+    rec.count("inputs-parsed-with-warnings-as-errors", _state.get("werr", 0))
     # wall-clock screen: slow cases are re-run alone before they count
     for case in _state.get("slow", [])[:5]:
         rerun_slow(rec, case)
